@@ -800,6 +800,29 @@ class Interp:
                 recs = recs + ((node, tuple(interp.eval(e, st) for e in exprs), st),)
             if label in ("exc", "raise"):
                 return (st, recs)
+            if node.kind == "call_enter" and label == "call":
+                # bind the inlined callee's parameters to the abstract arguments
+                from .flow import _bindings
+
+                b = _bindings(node)
+                if b:
+                    st2 = dict(st)
+                    vals = {p: interp.eval(a, st) for p, a in b.items()}
+                    for p, v in vals.items():
+                        for k in [k for k in st2 if k == p or k.startswith(p + ".")]:
+                            del st2[k]
+                        st2[p] = v
+                        # attribute facts of plain-name arguments travel with them
+                        d = dotted(b[p])
+                        if d:
+                            for k, vv in st.items():
+                                if k.startswith(d + "."):
+                                    st2[p + k[len(d):]] = vv
+                            for k, vv in interp.oracle.items():
+                                if k.startswith(d + ".") and (p + k[len(d):]) not in interp.oracle:
+                                    st2.setdefault(p + k[len(d):], vv)
+                    return (st2, recs)
+                return (st, recs)
             return (interp.exec(node, st), recs)
 
         base = dict(init or {})
